@@ -835,7 +835,7 @@ pub fn run(ctx: &Ctx) {
     drive_enum(ctx, &SUBS[0], crate::sweep::cases().len() as u64);
     drive_random(ctx, &SUBS[1], ctx.n(30_000, 15_000_000), 2000);
     drive_random(ctx, &SUBS[2], ctx.n(20_000, 10_000_000), 1500);
-    drive_random(ctx, &SUBS[3], ctx.n(8_000, 4_000_000), 2000);
+    drive_random(ctx, &SUBS[3], ctx.n(8_000, 4_000_000), 4000);
     drive_random(ctx, &SUBS[4], ctx.n(8_000, 4_000_000), 2000);
     if !ctx.quick() && !ctx.failed() {
         crate::fuzzing::drive_fuzz(ctx, "modules", 200000);
